@@ -43,6 +43,9 @@ S = {
     "style": ["pages theme1", "theme-grid"],
     "namespaces": ['nsa="http://nsa.example/1"', 'nsb="http://nsb.example/2" nsc=http://nsc.example/3'],
     "attribute::cattr": ["cv&1", "cv2"],
+    # custom root attributes named like the standard ones never displace the form id / version
+    "attribute::id": ["custom-id-1", "custom-id-2"],
+    "attribute::version": ["custom-version-1", "custom-version-2"],
     "instance_xmlns": ["http://ix.example/1", "http://ix.example/2"],
     "omit_instanceID": ["true", "yes"],
     "prefix": ["PX1", "px<2"],
@@ -123,7 +126,7 @@ def expected(case):
     e["id"] = s.get("form_id", "stemX" if path else "data")
     e["title"] = s.get("form_title", e["id"])
     e["root"] = s.get("name", "argname" if fn_arg else "data")
-    e["version"] = s.get("version")
+    e["version"] = s.get("version", s.get("attribute::version"))  # a custom attribute only fills the place when the setting is absent
     e["instance_name"] = s.get("instance_name")
     sub = {}
     if "submission_url" in s:
@@ -283,6 +286,7 @@ def check_one(case):
             "version": ["%s/@version" % e["root"]], "instance_name": ["bind/@calculate"],
             "submission_url": ["submission/@action"], "public_key": ["submission/@base64RsaPublicKey"],
             "style": ["body/@class"], "attribute::cattr": ["%s/@cattr" % e["root"]], "instance_xmlns": [],
+            "attribute::id": [], "attribute::version": ["%s/@version" % e["root"]] if "version" not in case["set"] else [],
             "prefix": ["%s/@prefix" % e["root"]], "delimiter": ["%s/@delimiter" % e["root"]],
         }[k]
         if places != sorted(want):
